@@ -474,6 +474,69 @@ def fill_engine_buffers_written_in_place(M, rec, rng, g, reps):
                           {"desc": desc, "first": _show(r1), "again": _show(r2)})
 
 
+def rebuilt_networks(M, rec, rng, reps):
+    """A coarse corridor is built and stepped inside a helper (its Network is local and dies there), then a REFINED corridor
+    is built from the same origin, nodes and links plus a new first link: stepping it gives what a corridor of fresh objects
+    gives - whatever an element remembered about the network it used to be in (which no longer exists) plays no role."""
+    import gc
+
+    NE, CE = drive.engines(M)
+    kw = dict(T=10 / 3600, tau=18 / 3600, eta=60.0, kappa=40.0)
+
+    def objects(okind):
+        nodes = [M.Node(name=f"N{i}") for i in range(4)]
+        mk = lambda nm, N_: M.Link(N_, 2, 1.0, 180.0, 33.5, 102.0, 1.867, name=nm)  # noqa: E731
+        links = {"La": mk("La", 2), "Lb": mk("Lb", 1), "Lx": mk("Lx", 2)}
+        org = {"main": lambda: M.MainstreamOrigin(name="O"), "ramp": lambda: M.MeteredOnRamp(2000.0, name="O"), "simple": lambda: M.SimplifiedMeteredOnRamp(2000.0, name="O")}[okind]()
+        return nodes, links, org, M.Destination(name="D")
+
+    def ic_of(links, org, vals, which):
+        ic = {links[k_]: {"rho": np.array(vals[k_]["rho"]), "v": np.array(vals[k_]["v"])} for k_ in which}
+        ic[org] = {k_: np.array([x_]) for k_, x_ in vals["O"].items()}
+        return ic
+
+    for it in range(reps):
+        okind = ("main", "ramp", "simple")[it % 3]
+        vals = {k_: {"rho": [rng.uniform(10, 120) for _ in range(n_)], "v": [rng.uniform(20, 100) for _ in range(n_)]} for k_, n_ in (("La", 2), ("Lb", 1), ("Lx", 2))}
+        vals["O"] = {"w": rng.uniform(0, 30), "d": rng.uniform(1500, 4000)}
+        vals["O"].update({"main": {"v_ctrl": 300.0}, "ramp": {"r": rng.uniform(0.4, 1.0)}, "simple": {"q": rng.uniform(800.0, 3000.0)}}[okind])
+
+        def coarse(nodes, links, org, dest):
+            net = M.Network(name="coarse").add_path((nodes[0], links["La"], nodes[1], links["Lb"], nodes[2]), origin=org, destination=dest)
+            net.step(init_conditions=ic_of(links, org, vals, ("La", "Lb")), engine=NE(), **kw)
+            return id(net)
+
+        def refined(nodes, links, org, dest, where=None):
+            net = M.Network(name="refined")
+            if where is not None:
+                # the allocator commonly hands the dead network's memory to the next Network: make sure of it here (the
+                # candidates that landed elsewhere are kept alive meanwhile)
+                keep = []
+                for _try in range(300):
+                    if id(net) == where:
+                        rec.count("rebuilt_networks_at_the_address_of_the_dead_one")
+                        break
+                    keep.append(net)
+                    net = M.Network(name="refined")
+            net.add_path((nodes[0], links["Lx"], nodes[3], links["La"], nodes[1], links["Lb"], nodes[2]), origin=org, destination=dest)
+            net.step(init_conditions=ic_of(links, org, vals, ("La", "Lb", "Lx")), engine=NE(), **kw)
+            return {nm_: {k_: np.asarray(x_, float).ravel().tolist() for k_, x_ in el_.next_states.items()} for nm_, el_ in list(links.items()) + [("O", org)] if el_.next_states}
+
+        try:
+            objs = objects(okind)
+            dead = coarse(*objs)
+            got = refined(*objs, where=dead)      # same origin, nodes and links; the coarse network is gone
+            exp = refined(*objects(okind))
+        except Exception as e:
+            rec.count("rebuilt_network_history_raised")
+            rec.seen("rebuilt_network_history_raised", repr(e)[:100])
+            continue
+        rec.count("rebuilt_network_histories")
+        if not _bitwise(got, exp):
+            rec.violation(f"{PROP}:numpy: a corridor rebuilt (refined) from objects that had been stepped in a network that no longer exists does not step like a corridor of fresh objects",
+                          {"origin_kind": okind, "rebuilt": _show(got), "fresh": _show(exp)})
+
+
 def run(M, rec, tier, seed, k, n):
     np.seterr(all="ignore")
     rng = random.Random(seed * 1000 + k + 1200)
@@ -487,6 +550,7 @@ def run(M, rec, tier, seed, k, n):
     reconfigured_fill_engine(M, rec, rng, g, 30 if tier == "quick" else 300)
     finite_difference_steps(M, rec, rng, g, 80 if tier == "quick" else 800)
     fill_engine_buffers_written_in_place(M, rec, rng, g, 30 if tier == "quick" else 300)
+    rebuilt_networks(M, rec, rng, 30 if tier == "quick" else 300)
 
 
 def finish(M, rec, write=True):
